@@ -9,6 +9,7 @@ import collections
 import os
 
 from mc import explore, render, impl, faults, profiles, paramspace
+from mc import model as mm
 from mc.explore import viol
 
 PROP = 'C01'
@@ -50,12 +51,40 @@ def gather_states(tier, run, budget=None, extra_models=True):
     run.bounds['per_profile_state_budget'] = budget
     run.bounds['profile_depths'] = {k_: v['depth'] for k_, v in prof_info.items()}
     res = [(s, tr, pn, tuple(sorted(fl)), d) for s, tr, pn, fl, d in out]
+    # name-reversed variants: the same structure with, per namespace and kind, the names handed out in reverse alphabetical
+    # order, for every state in which a definition depends on another one of its own kind (alias -> alias through any
+    # wrapper, child -> parent, root -> subtypes): alphabetical listings and dependency-first linearizations then disagree
+    nrev = 0
+    for s, tr, pn, fl, d in list(res):
+        if not _same_kind_dependency(s):
+            continue
+        r2 = mm.reversed_names(s)
+        if r2 is None or r2 in seen:
+            continue
+        seen[r2] = -1
+        res.append((r2, tuple(tr) + ('rename: reverse alphabetical names',), pn, fl, d))
+        nrev += 1
+    run.bounds['name_reversed_variants'] = nrev
     if extra_models:
         for m, tr in profiles.cross_namespace_models():
             if m not in seen:
                 res.append((m, tr, 'cross-namespace-product', ('aliases', 'imports', 'ns', 'routes', 'unions', 'wrappers'), 3))
         run.bounds['cross_namespace_alias_product_models'] = len(profiles.cross_namespace_models())
     return res
+
+
+def _same_kind_dependency(model):
+    for nsn, fi, di, d in mm.all_defs(model):
+        if isinstance(d, mm.Alias):
+            for r in mm.type_refs(d.type):
+                t = mm.resolve(model, nsn, r)
+                if t is not None and t[0] == nsn and isinstance(t[1], mm.Alias):
+                    return True
+        elif isinstance(d, (mm.Struct, mm.Union)) and d.parent is not None:
+            t = mm.resolve(model, nsn, d.parent)
+            if t is not None and t[0] == nsn:
+                return True
+    return False
 
 
 def judge_valid(specs, out):
